@@ -31,13 +31,14 @@ PROBES = ['one_sample_trace', 'window_longer_than_trace', 'result_starts_with_in
 
 
 def gen(rng, tier):
-    nv = rng.randint(1, 3)
+    big = tier == 'thorough'
+    nv = rng.randint(1, 4 if big else 3)
     vars_ = common.VARS[:nv]
-    cfg = sg.GenCfg(vars=vars_, max_depth=rng.randint(2, 5), max_bound=rng.choice([2, 4, 4, 6]),
+    cfg = sg.GenCfg(vars=vars_, max_depth=rng.randint(2, 6 if big else 5), max_bound=rng.choice([2, 4, 4, 6] + ([8, 10] if big else [])),
                     p_reuse=rng.choice([0.0, 0.1, 0.3]), p_loose=rng.choice([0.08, 0.08, 0.35]))
     ast = sg.gen_formula(rng, cfg)
     text = 'out = ' + sg.to_text(ast, sg.Spelling(rng)) + (';' if rng.random() < 0.8 else '')
-    n = rng.choice([1, 1, 2, 2, 3, 4, 5, 6, 8, 10, 12])
+    n = rng.choice([1, 1, 2, 2, 3, 4, 5, 6, 8, 10, 12] + ([16, 20, 24] if big else []))
     data = world.gen_trace(rng, vars_, n)
     clocks = [world.perfect_clock(n)]
     fired = {}
